@@ -525,8 +525,14 @@ fn c15_format_case(rep: &mut Report, fmt: &str, nargs: usize) {
 
 /// random nested value expression, depth-bounded
 fn value_expr(rng: &mut Rng, depth: u32) -> AST {
-    const NAMES: [&str; 22] = [
+    // (lengths on both sides of 8, 16, 24, 32, 64 and 256 bytes, with first letters from both ends of the alphabet)
+    const NAMES: [&str; 38] = [
         "a", "ab", "abc", "b", "B", "A", "_a", "a_", "a1", "a10", "a2", "z", "Z", "aB", "abcd", "alpha", "zeta", "a_rather_long_field_name", "Zz", "aaaa", "aaab", "b0000",
+        "a_rather_long_field_name_", "accumulated_interest_in_cents", "m_twenty_three_character", "Zeta_field_name_of_thirty_two_ch", "zeta_field_name_of_thirty_three_c", "bal", "balance", "seven_c",
+        "eight_ch", "nine_char", "fifteen_chars__", "sixteen_chars___", "seventeen_chars__",
+        "_underscore_leading_name_that_is_quite_long_indeed_0123456789_64",
+        "zz_sixty_five_characters_long_field_name_0123456789_abcdefghijklmn",
+        "y_a_name_of_two_hundred_and_fifty_six_bytes_0123456789_0123456789_0123456789_0123456789_0123456789_0123456789_0123456789_0123456789_0123456789_0123456789_0123456789_0123456789_0123456789_0123456789_0123456789_0123456789_0123456789_0123456789_0123456_end256",
     ];
     if depth == 0 || (depth < 6 && rng.chance(1, 4)) {
         return match rng.below(4) {
@@ -558,7 +564,8 @@ fn value_expr(rng: &mut Rng, depth: u32) -> AST {
         }
         _ => {
             let parent = if rng.chance(1, 3) { value_expr(rng, depth - 1) } else { AST::Null };
-            let k = rng.below(5);
+            let wide = rng.chance(1, 4);
+            let k = rng.below(if wide { 10 } else { 5 });
             let mut names: Vec<&str> = NAMES.to_vec();
             rng.shuffle(&mut names);
             let mut members = Vec::new();
@@ -641,7 +648,7 @@ pub fn c15(ctx: &Ctx, rep: &mut Report) {
                 }
                 1 => f.push_str(["\\n", "\\t", "\\r", "\\\\", "\\\"", "\\~"][rng.below(6)]),
                 2 => f.push(['\u{0}', '\u{1}', '\u{7}', '\u{1b}', '\u{7f}', '\r', '\n', '\t', '\u{b}', '\u{c}'][rng.below(10)]),
-                3 => f.push(['\u{85}', '\u{a0}', '\u{2028}', '\u{2029}', '\u{feff}', '\u{200b}', '\u{200d}', '\u{202e}', '\u{fffd}', '\u{fffe}'][rng.below(10)]),
+                3 => f.push(super::super::progs::special_char(&mut rng)),
                 4 => f.push(char::from_u32(0x1f300 + rng.below(0x300) as u32).unwrap_or('😀')),
                 5 => f.push(char::from_u32(0x300 + rng.below(0x70) as u32).unwrap_or('\u{301}')),
                 6 => f.push(char::from_u32(0x4e00 + rng.below(0x5000) as u32).unwrap_or('中')),
@@ -705,6 +712,46 @@ pub fn c15(ctx: &Ctx, rep: &mut Report) {
                                 );
                             }
                         }
+                    }
+                }
+            }
+        }
+    }
+    // one print whose text is long: a line break followed by a tail that fills or exceeds the usual buffers, the
+    // tail coming from the format text or from a rendered argument; through the real CLI, byte for byte
+    if ctx.shard == 2 % ctx.nshards {
+        let dirl = ctx.scratch("c15long");
+        for (n, tail_len) in [0usize, 1, 1022, 1023, 1024, 1025, 2048, 4095, 4096, 4097, 8191, 8192, 8193, 65536, 70001].iter().enumerate() {
+            for via_argument in [false, true].iter() {
+                for head in ["", "head\n", "a\n\nb\n"].iter() {
+                    // an array of k one-digit elements renders to 3k bytes
+                    let k = tail_len / 3 + 1;
+                    let (src, want) = if *via_argument {
+                        let rendered = format!("[{}]", vec!["7"; k].join(", "));
+                        (format!("print(\"{}~\", array({}, 7));\nprint(\"|end\\n\");\n", head.replace('\n', "\\n"), k), format!("{}{}|end\n", head, rendered))
+                    } else {
+                        let tail = "t".repeat(*tail_len);
+                        (format!("print(\"{}{}\");\nprint(\"|end\\n\");\n", head.replace('\n', "\\n"), tail), format!("{}{}|end\n", head, tail))
+                    };
+                    let file = dirl.join(format!("long{}.fml", n));
+                    if std::fs::write(&file, &src).is_err() {
+                        continue;
+                    }
+                    let run = if n % 2 == 0 { super::super::cli::fml_run_file(&file) } else { super::super::cli::fml_run_stdin(&src) };
+                    rep.evaluations += 1;
+                    if run.timed_out || run.spawn_error.is_some() {
+                        rep.skip("cli-watchdog");
+                        continue;
+                    }
+                    rep.conclusive += 1;
+                    rep.count("cli_runs", 1);
+                    rep.bump("c15-long-prints", if *via_argument { "tail from a rendered argument" } else { "tail from the format text" });
+                    if !run.success() || run.stdout != want.as_bytes() {
+                        rep.violation(
+                            "C15:cli-long-print",
+                            format!("a print of {:?} followed by a {}-byte tail ({}): expected success with {} bytes, observed exit {:?} and {} bytes; stderr {:?}", head, tail_len, if *via_argument { "a rendered array" } else { "format text" }, want.len(), run.code, run.stdout.len(), super::super::cli::truncate(&run.err_str(), 200)),
+                            json!({"check":"C15","src": if src.len() < 20000 { src.clone() } else { String::new() }, "long": [tail_len, via_argument, head]}),
+                        );
                     }
                 }
             }
